@@ -228,6 +228,9 @@ func (fr *frame) fmtArg(pc fmtPiece, arg value, lenient bool) value {
 		}
 		return fmt.Sprintf("%"+pc.spec+string(pc.verb), math.Float64frombits(bits))
 	case symString:
+		if lenient && x.tok != nil && !x.tok.done {
+			return "<int>"
+		}
 		if (pc.verb == 's' || pc.verb == 'v') && pc.spec == "" {
 			return x
 		}
@@ -350,10 +353,24 @@ func (p *Path) writeStdout(s value) {
 	p.stdoutV = append(p.stdoutV, s)
 }
 
+// outLen is the byte count a Print function returns. For a lazily rendered
+// integer it is a fresh symbolic count (1..20 bytes), so that the digits
+// are only materialised if the program really looks at them.
+func (p *Path) outLen(s value) value {
+	if ss, ok := s.(symString); ok && ss.tok != nil && !ss.tok.done {
+		p.itoaN++
+		n := p.ts.Var(fmt.Sprintf("k_outlen_%d", p.itoaN), bvSort(64))
+		p.take(p.ts.BvRel("bvuge", n, p.ts.BV(1, 64)))
+		p.take(p.ts.BvRel("bvule", n, p.ts.BV(20, 64)))
+		return p.mkInt(n, types.Int)
+	}
+	return strLen(s)
+}
+
 func extPrintf(fr *frame, args []value) value {
 	s := fr.sprintf(args[0], varargs(args[1]), false)
 	fr.i.path.writeStdout(s)
-	return tuple{strLen(s), iface{}}
+	return tuple{fr.i.path.outLen(s), iface{}}
 }
 
 func (fr *frame) sprint(args []value, ln bool) value {
@@ -377,13 +394,13 @@ func (fr *frame) sprint(args []value, ln bool) value {
 func extPrint(fr *frame, args []value) value {
 	s := fr.sprint(varargs(args[0]), false)
 	fr.i.path.writeStdout(s)
-	return tuple{strLen(s), iface{}}
+	return tuple{fr.i.path.outLen(s), iface{}}
 }
 
 func extPrintln(fr *frame, args []value) value {
 	s := fr.sprint(varargs(args[0]), true)
 	fr.i.path.writeStdout(s)
-	return tuple{strLen(s), iface{}}
+	return tuple{fr.i.path.outLen(s), iface{}}
 }
 
 func extSprint(fr *frame, args []value) value   { return fr.sprint(varargs(args[0]), false) }
@@ -392,11 +409,11 @@ func extSprintln(fr *frame, args []value) value { return fr.sprint(varargs(args[
 func extFprintf(fr *frame, args []value) value {
 	s := fr.sprintf(args[1], varargs(args[2]), false)
 	fr.i.path.writeStdout(s)
-	return tuple{strLen(s), iface{}}
+	return tuple{fr.i.path.outLen(s), iface{}}
 }
 
 func extFprintln(fr *frame, args []value) value {
 	s := fr.sprint(varargs(args[1]), true)
 	fr.i.path.writeStdout(s)
-	return tuple{strLen(s), iface{}}
+	return tuple{fr.i.path.outLen(s), iface{}}
 }
